@@ -5,6 +5,63 @@ fn usage() -> ! {
     std::process::exit(2);
 }
 
+/// Runs the check in a child process.  If the child is killed by a signal (stack overflow,
+/// allocation failure, a double panic: things `catch_unwind` cannot turn into a value), the chunk
+/// journal it kept names the enumeration windows that were in flight; each is re-run, one case per
+/// journal entry, in further children until one dies again; that case is the witness of an
+/// `abort` violation.  An abort that cannot be reproduced stays a machinery failure (exit 2).
+fn supervise(id: &str, tier: Tier) -> i32 {
+    use std::process::Command;
+    let exe = std::env::current_exe().expect("current exe");
+    let dir = format!("{}/replays/tmp", lqv_core::report::verif_dir());
+    let _ = std::fs::create_dir_all(&dir);
+    let journal = format!("{dir}/{id}-journal-{}.txt", std::process::id());
+    let probe = format!("{dir}/{id}-probe-{}.txt", std::process::id());
+    let _ = std::fs::remove_file(&journal);
+    let tier_s = if tier.thorough() { "thorough" } else { "quick" };
+    let status = Command::new(&exe).args(["run", id, tier_s]).env("LQV_CHILD", "1").env("LQV_CRASHFILE", &journal).status().expect("spawn child");
+    let cleanup = || {
+        let _ = std::fs::remove_file(&journal);
+        let _ = std::fs::remove_file(&probe);
+    };
+    if let Some(code) = status.code() {
+        if code <= 2 {
+            cleanup();
+            return code;
+        }
+    }
+    eprintln!("[{id}] the engine died ({status}); looking for the case that kills it");
+    let lines: Vec<String> = std::fs::read_to_string(&journal).unwrap_or_default().lines().map(|l| l.to_string()).collect();
+    let total_chunks = lines.len() as u64;
+    // the windows in flight are among the last few journal entries (one per worker thread)
+    let mut seen = std::collections::HashSet::new();
+    let candidates: Vec<&String> = lines.iter().rev().filter(|l| seen.insert((*l).clone())).take(48).collect();
+    for c in candidates {
+        let _ = std::fs::remove_file(&probe);
+        let st = Command::new(&exe).args(["run", id, tier_s]).env("LQV_CHILD", "1").env("LQV_PROBE", c).env("LQV_CRASHFILE", &probe).stdout(std::process::Stdio::null()).stderr(std::process::Stdio::null()).status();
+        let died = st.map(|s| s.code().map(|c| c > 2).unwrap_or(true)).unwrap_or(false);
+        if !died {
+            continue;
+        }
+        let idx = std::fs::read_to_string(&probe).unwrap_or_default().trim().to_string();
+        let fam = c.split('\t').next().unwrap_or("?").to_string();
+        let Ok(idx) = idx.parse::<u64>() else { continue };
+        let out = Command::new(&exe).args(["run", id, tier_s]).env("LQV_CHILD", "1").env("LQV_DESCRIBE", format!("{fam}\t{idx}")).output();
+        let witness: serde_json::Value = out.ok().and_then(|o| String::from_utf8_lossy(&o.stdout).lines().rev().find_map(|l| serde_json::from_str(l).ok())).unwrap_or(serde_json::json!({"family": fam, "index": idx}));
+        let id_static: &'static str = Box::leak(id.to_string().into_boxed_str());
+        let report = lqv_core::report::Report::new(id_static, tier, "exploration");
+        report.set_rule("the engine process was killed while enumerating; the case was pinned down by re-running the journalled windows one case per process");
+        report.evals(total_chunks.max(1));
+        report.violation(&format!("{id}|abort|{fam}"), idx, witness, format!("case {idx} of family {fam} kills the process ({status}): an abort (stack overflow, allocation failure, double panic) instead of a result"));
+        let code = report.finish();
+        cleanup();
+        return if code == 0 { 1 } else { code };
+    }
+    eprintln!("[{id}] machinery failure: the engine died ({status}) and no journalled window reproduces it; no verdict");
+    cleanup();
+    2
+}
+
 fn main() {
     let args: Vec<String> = std::env::args().collect();
     if args.len() < 3 {
@@ -17,8 +74,10 @@ fn main() {
                 Some("quick") | None => Tier::Quick,
                 _ => usage(),
             };
-            let code = lqv_core::run_property(&args[2], tier);
-            std::process::exit(code);
+            if std::env::var("LQV_CHILD").is_ok() {
+                std::process::exit(lqv_core::run_property(&args[2], tier));
+            }
+            std::process::exit(supervise(&args[2], tier));
         }
         "replay" => std::process::exit(lqv_core::replay::replay(&args[2])),
         "worker" => match args[2].as_str() {
